@@ -53,13 +53,28 @@ fn emit_file(cx: &mut Ctx, id: &str, kind: &str, file: &File, goenv: &GlobalGoEn
     if kind == "ITEM" {
         let whole = catch_unwind(AssertUnwindSafe(|| file.to_pretty(goenv, 120))).unwrap_or_else(|_| PANIC.to_string());
         let expect = joined.join("\n\n") + "\n";
-        writeln!(cx.out, "{}\tFILE\t{}\t{}", id, file.toplevels.len(), whole == expect).unwrap();
+        // the model-free oracle at the narrower widths too: the text must read back as the AST it was printed from
+        let erased = crate::goparse::erase_file(file);
+        let mut narrow = Vec::new();
+        for w in [40usize, 80] {
+            let t = catch_unwind(AssertUnwindSafe(|| file.to_pretty(goenv, w))).unwrap_or_else(|_| PANIC.to_string());
+            narrow.push(match catch_unwind(AssertUnwindSafe(|| crate::goparse::parse_go(&t))) {
+                Ok(Ok(p)) if p == erased => "ok".to_string(),
+                Ok(Ok(p)) => format!("diff {}", esc_line(&format!("{:?}", crate::goparse::first_diff(&erased, &p, &mut Vec::new())).chars().take(300).collect::<String>())),
+                Ok(Err(e)) => format!("parse-error {}", esc_line(&e.chars().take(200).collect::<String>())),
+                Err(_) => "parser-panic".to_string(),
+            });
+        }
+        writeln!(cx.out, "{}\tFILE\t{}\t{}\t{}\t{}", id, file.toplevels.len(), whole == expect, narrow[0], narrow[1]).unwrap();
     }
 }
 
-fn one(cx: &mut Ctx, id: &str, oc: Outcome) {
+fn one(cx: &mut Ctx, id: &str, oc: Outcome, src: &str) {
     match oc {
-        Outcome::Ok(c) => emit_file(cx, id, "ITEM", &c.go, &c.goenv, "-"),
+        Outcome::Ok(c) => {
+            writeln!(cx.out, "{}\tSRC\t{}", id, esc_line(src)).unwrap();
+            emit_file(cx, id, "ITEM", &c.go, &c.goenv, "-")
+        }
         Outcome::Err(stage, _) => writeln!(cx.out, "{}\tREJECT\t{}", id, stage).unwrap(),
         Outcome::Panic(m) => writeln!(cx.out, "{}\tPANICKED\t{}", id, esc_line(&m)).unwrap(),
     }
@@ -97,18 +112,26 @@ fn gen_string(r: &mut Rng) -> String {
     s
 }
 
-fn gen_float(r: &mut Rng) -> f64 {
+fn gen_float(r: &mut Rng, strict: bool) -> f64 {
+    let v = gen_float0(r, strict);
+    if strict && v == 0.0 { 0.0 } else { v }
+}
+
+fn gen_float0(r: &mut Rng, strict: bool) -> f64 {
     match r.below(10) {
         0 => *r.pick(&[0.0, -0.0, 1.0, -1.0, 2.5, 0.1, 1e21, 1e-7, 123456789.0, f64::MAX, f64::MIN_POSITIVE, 5e-324, 1e15, 1e16, 1e17, 0.3, 1.0 / 3.0, 4.35, 9007199254740993.0]),
-        1 => *r.pick(&[f64::INFINITY, f64::NEG_INFINITY, f64::NAN]),
+        1 if !strict => *r.pick(&[f64::INFINITY, f64::NEG_INFINITY, f64::NAN]),
         2 | 3 => (r.below(2000) as f64 - 1000.0) / *r.pick(&[1.0, 2.0, 4.0, 10.0, 100.0, 1000.0]),
         4 => (r.next() as f32 / 7.0) as f64,
         5 => f32::from_bits(r.next() as u32) as f64,
-        _ => f64::from_bits(r.next()),
+        _ => {
+            let v = f64::from_bits(r.next());
+            if strict && !v.is_finite() { 1.5 } else { v }
+        }
     }
 }
 
-fn gen_ty(r: &mut Rng, d: usize) -> GoType {
+fn gen_ty(r: &mut Rng, d: usize, strict: bool) -> GoType {
     let k = if d == 0 { r.below(16) } else { r.below(21) };
     match k {
         0 => GoType::TUnit,
@@ -126,13 +149,14 @@ fn gen_ty(r: &mut Rng, d: usize) -> GoType {
         12 => GoType::TString,
         13 => GoType::TName { name: r.pick(TYPES).to_string() },
         14 => GoType::TStruct { name: r.pick(TYPES).to_string(), fields: vec![] },
-        15 => GoType::TVoid,
-        16 => GoType::TPointer { elem: Box::new(gen_ty(r, d - 1)) },
-        17 => GoType::TSlice { elem: Box::new(gen_ty(r, d - 1)) },
-        18 => GoType::TArray { len: r.below(5), elem: Box::new(gen_ty(r, d - 1)) },
+        15 if !strict => GoType::TVoid,
+        15 => GoType::TBool,
+        16 => GoType::TPointer { elem: Box::new(gen_ty(r, d - 1, strict)) },
+        17 => GoType::TSlice { elem: Box::new(gen_ty(r, d - 1, strict)) },
+        18 => GoType::TArray { len: r.below(5), elem: Box::new(gen_ty(r, d - 1, strict)) },
         _ => {
             let n = r.below(3);
-            GoType::TFunc { params: (0..n).map(|_| gen_ty(r, d - 1)).collect(), ret_ty: Box::new(gen_ty(r, d - 1)) }
+            GoType::TFunc { params: (0..n).map(|_| gen_ty(r, d - 1, strict)).collect(), ret_ty: Box::new(gen_ty(r, d - 1, strict)) }
         }
     }
 }
@@ -167,7 +191,7 @@ fn gen_expr(r: &mut Rng, d: usize, min: usize, strict: bool) -> Expr {
             4 => Expr::String { value: gen_string(r), ty },
             5 => Expr::Unit { ty },
             6 => Expr::Int { value: r.pick(INTS).to_string(), ty },
-            _ => Expr::Float { value: gen_float(r), ty },
+            _ => Expr::Float { value: gen_float(r, strict), ty },
         };
     }
     // binary levels that are allowed here
@@ -209,7 +233,7 @@ fn gen_expr(r: &mut Rng, d: usize, min: usize, strict: bool) -> Expr {
         }
         2 => Expr::FieldAccess { obj: base(r), field: r.pick(FIELDS).to_string(), ty },
         3 => Expr::Index { array: base(r), index: Box::new(gen_expr(r, d - 1, 0, strict)), ty },
-        4 => Expr::Cast { expr: base(r), ty: gen_ty(r, 2) },
+        4 => Expr::Cast { expr: base(r), ty: gen_ty(r, 2, strict) },
         5 => {
             let n = r.below(4);
             Expr::StructLiteral {
@@ -219,7 +243,7 @@ fn gen_expr(r: &mut Rng, d: usize, min: usize, strict: bool) -> Expr {
         }
         6 => {
             let n = r.below(4);
-            let elem = Box::new(gen_ty(r, 1));
+            let elem = Box::new(gen_ty(r, 1, strict));
             Expr::ArrayLiteral {
                 ty: if r.chance(1, 2) { GoType::TSlice { elem } } else { GoType::TArray { len: n, elem } },
                 elems: (0..n).map(|_| gen_expr(r, d - 1, 0, strict)).collect(),
@@ -289,7 +313,7 @@ fn gen_stmt(r: &mut Rng, d: usize, strict: bool) -> Stmt {
     let ed = 1 + r.below(3);
     match r.below(if d == 0 { 9 } else { 13 }) {
         0 => Stmt::Expr(gen_expr(r, ed, 0, strict)),
-        1 => Stmt::VarDecl { name: r.pick(NAMES[..5].as_ref()).to_string(), ty: gen_ty(r, 2), value: if r.chance(3, 4) { Some(gen_expr(r, ed, 0, strict)) } else { None } },
+        1 => Stmt::VarDecl { name: r.pick(NAMES[..5].as_ref()).to_string(), ty: gen_ty(r, 2, strict), value: if r.chance(3, 4) { Some(gen_expr(r, ed, 0, strict)) } else { None } },
         2 => Stmt::Assignment { name: r.pick(NAMES[..5].as_ref()).to_string(), value: gen_expr(r, ed, 0, strict) },
         3 => Stmt::FieldAssign { target: gen_expr(r, 1, 7, strict), value: gen_expr(r, ed, 0, strict) },
         4 => Stmt::PointerAssign { pointer: gen_expr(r, 1, 6, strict), value: gen_expr(r, ed, 0, strict) },
@@ -312,16 +336,16 @@ fn gen_stmt(r: &mut Rng, d: usize, strict: bool) -> Stmt {
             Stmt::SwitchType {
                 bind: if r.chance(1, 2) { Some("v".into()) } else { None },
                 expr: gen_header(r, 1, strict, 7),
-                cases: (0..n).map(|_| (gen_ty(r, 1), gen_block(r, d, strict))).collect(),
+                cases: (0..n).map(|_| (gen_ty(r, 1, strict), gen_block(r, d, strict))).collect(),
                 default: if r.chance(1, 2) { Some(gen_block(r, d, strict)) } else { None },
             }
         }
     }
 }
 
-fn gen_params(r: &mut Rng) -> Vec<(String, GoType)> {
+fn gen_params(r: &mut Rng, strict: bool) -> Vec<(String, GoType)> {
     let n = r.below(4);
-    (0..n).map(|i| (format!("a{}", i), gen_ty(r, 2))).collect()
+    (0..n).map(|i| (format!("a{}", i), gen_ty(r, 2, strict))).collect()
 }
 
 fn gen_item(r: &mut Rng, i: usize, strict: bool) -> Item {
@@ -337,7 +361,7 @@ fn gen_item(r: &mut Rng, i: usize, strict: bool) -> Item {
             let n = r.below(4);
             Item::Interface(Interface {
                 name: r.pick(TYPES).to_string(),
-                methods: (0..n).map(|k| MethodElem { name: format!("m{}", k), params: gen_params(r), ret: if r.chance(1, 2) { Some(gen_ty(r, 2)) } else { None } }).collect(),
+                methods: (0..n).map(|k| MethodElem { name: format!("m{}", k), params: gen_params(r, strict), ret: if r.chance(1, 2) { Some(gen_ty(r, 2, strict)) } else { None } }).collect(),
             })
         }
         3 => {
@@ -345,13 +369,13 @@ fn gen_item(r: &mut Rng, i: usize, strict: bool) -> Item {
             let m = r.below(3);
             Item::Struct(Struct {
                 name: r.pick(TYPES).to_string(),
-                fields: (0..n).map(|k| Field { name: format!("_{}", k), ty: gen_ty(r, 2) }).collect(),
+                fields: (0..n).map(|k| Field { name: format!("_{}", k), ty: gen_ty(r, 2, strict) }).collect(),
                 methods: (0..m)
-                    .map(|k| Method { receiver: Receiver { name: "self".into(), ty: gen_ty(r, 1) }, name: format!("m{}", k), params: gen_params(r), body: gen_block(r, 2, strict) })
+                    .map(|k| Method { receiver: Receiver { name: "self".into(), ty: gen_ty(r, 1, strict) }, name: format!("m{}", k), params: gen_params(r, strict), body: gen_block(r, 2, strict) })
                     .collect(),
             })
         }
-        4 => Item::TypeAlias(TypeAlias { name: r.pick(TYPES).to_string(), ty: gen_ty(r, 3) }),
+        4 => Item::TypeAlias(TypeAlias { name: r.pick(TYPES).to_string(), ty: gen_ty(r, 3, strict) }),
         5 | 6 => {
             // one long operator chain / one deep expression
             let (n1, n2) = (12 + r.below(30), 5 + r.below(3));
@@ -361,13 +385,13 @@ fn gen_item(r: &mut Rng, i: usize, strict: bool) -> Item {
         7 => {
             // deep statement nesting
             let dd = 4 + r.below(3);
-            Item::Fn(Fn { name: "deep".into(), params: gen_params(r), ret_ty: Some(gen_ty(r, 2)), body: gen_block(r, dd, strict) })
+            Item::Fn(Fn { name: "deep".into(), params: gen_params(r, strict), ret_ty: Some(gen_ty(r, 2, strict)), body: gen_block(r, dd, strict) })
         }
         8 => {
             let s = Expr::String { value: gen_string(r), ty: GoType::TString };
-            Item::Fn(Fn { name: "strs".into(), params: vec![], ret_ty: None, body: Block { stmts: vec![Stmt::Expr(s), Stmt::Expr(Expr::Float { value: gen_float(r), ty: GoType::TFloat64 }), Stmt::Expr(Expr::Float { value: gen_float(r), ty: GoType::TFloat32 })] } })
+            Item::Fn(Fn { name: "strs".into(), params: vec![], ret_ty: None, body: Block { stmts: vec![Stmt::Expr(s), Stmt::Expr(Expr::Float { value: gen_float(r, strict), ty: GoType::TFloat64 }), Stmt::Expr(Expr::Float { value: gen_float(r, strict), ty: GoType::TFloat32 })] } })
         }
-        _ => Item::Fn(Fn { name: format!("f{}", i), params: gen_params(r), ret_ty: if r.chance(1, 2) { Some(gen_ty(r, 2)) } else { None }, body: gen_block(r, 2, strict) }),
+        _ => Item::Fn(Fn { name: format!("f{}", i), params: gen_params(r, strict), ret_ty: if r.chance(1, 2) { Some(gen_ty(r, 2, strict)) } else { None }, body: gen_block(r, 2, strict) }),
     }
 }
 
@@ -383,16 +407,17 @@ fn synthetic(cx: &mut Ctx, args: &util::Args) {
         let text = catch_unwind(AssertUnwindSafe(|| file.to_pretty(&goenv, 120))).unwrap_or_else(|_| PANIC.to_string());
         let verdict = match catch_unwind(AssertUnwindSafe(|| crate::goparse::parse_go(&text))) {
             Ok(Ok(parsed)) => {
-                if parsed == crate::goparse::erase_file(&file) {
-                    "ok"
+                let erased = crate::goparse::erase_file(&file);
+                if parsed == erased {
+                    "ok".to_string()
                 } else {
-                    "diff"
+                    format!("diff {}", esc_line(&format!("{:?}", crate::goparse::first_diff(&erased, &parsed, &mut Vec::new())).chars().take(300).collect::<String>()))
                 }
             }
-            Ok(Err(_)) => "parse-error",
-            Err(_) => "parser-panic",
+            Ok(Err(e)) => format!("parse-error {}", esc_line(&e.chars().take(200).collect::<String>())),
+            Err(_) => "parser-panic".to_string(),
         };
-        emit_file(cx, &format!("syn:{}:{}:{}", args.seed, i, if strict { "strict" } else { "free" }), "SYN", &file, &goenv, verdict);
+        emit_file(cx, &format!("syn:{}:{}:{}", args.seed, i, if strict { "strict" } else { "free" }), "SYN", &file, &goenv, &verdict);
     }
 }
 
@@ -404,7 +429,7 @@ pub fn main(args: &util::Args) {
         let f = std::path::PathBuf::from(&args.rest[pos + 1]);
         let src = std::fs::read_to_string(&f).expect("read");
         let dir = util::scratch_dir("goppf");
-        one(&mut cx, "replay", util::compile_text(&dir, &src));
+        one(&mut cx, "replay", util::compile_text(&dir, &src), &src);
         let _ = std::fs::remove_dir_all(&dir);
         let _ = std::fs::create_dir_all(&args.out);
         std::fs::write(args.out.join("gopp.cases.tsv"), cx.out).unwrap();
@@ -415,7 +440,7 @@ pub fn main(args: &util::Args) {
         let path = d.join("main.gom");
         let Ok(src) = std::fs::read_to_string(&path) else { continue };
         let id = format!("repo:{}", d.file_name().unwrap().to_string_lossy());
-        one(&mut cx, &id, util::compile_path(&path, &src));
+        one(&mut cx, &id, util::compile_path(&path, &src), &src);
     }
     {
         let pk = util::repo_root().join("crates/compiler/src/tests/package");
@@ -427,7 +452,7 @@ pub fn main(args: &util::Args) {
             let path = d.join("main.gom");
             let Ok(src) = std::fs::read_to_string(&path) else { continue };
             let id = format!("pkg:{}", d.file_name().unwrap().to_string_lossy());
-            one(&mut cx, &id, util::compile_path(&path, &src));
+            one(&mut cx, &id, util::compile_path(&path, &src), &src);
         }
     }
     // ---- generated multi-package projects
@@ -442,7 +467,7 @@ pub fn main(args: &util::Args) {
                 std::fs::create_dir_all(p.parent().unwrap()).unwrap();
                 std::fs::write(&p, text).unwrap();
             }
-            one(&mut cx, &format!("multi:{}", i), util::compile_path(&root.join("main.gom"), &main_src));
+            one(&mut cx, &format!("multi:{}", i), util::compile_path(&root.join("main.gom"), &main_src), &main_src);
         }
         let _ = std::fs::remove_dir_all(&dir);
     }
@@ -461,7 +486,7 @@ pub fn main(args: &util::Args) {
             for f in files {
                 let Ok(src) = std::fs::read_to_string(&f) else { continue };
                 let id = format!("corpus:{}/{}", sub.file_name().unwrap().to_string_lossy(), f.file_name().unwrap().to_string_lossy());
-                one(&mut cx, &id, util::compile_text(&dir, &src));
+                one(&mut cx, &id, util::compile_text(&dir, &src), &src);
             }
         }
         let _ = std::fs::remove_dir_all(&dir);
@@ -490,7 +515,7 @@ pub fn main(args: &util::Args) {
             ..Default::default()
         };
         let (src, _) = crate::progen::gen_program(&mut rng, cfg);
-        one(&mut cx, &format!("gen:{}:{}", args.seed, i), util::compile_text(&dir, &src));
+        one(&mut cx, &format!("gen:{}:{}", args.seed, i), util::compile_text(&dir, &src), &src);
     }
     for i in 0..(if thorough { 1500 } else { 150 }) {
         let mut root = Rng::new(args.seed ^ 0x5eed_c105);
@@ -503,7 +528,7 @@ pub fn main(args: &util::Args) {
         }
         let cfg = crate::progen::CloCfg { flows, nest: 1 + i % 4, stmts: 1 + i % 3 };
         let (src, _) = crate::progen::gen_closure_program(&mut rng, cfg);
-        one(&mut cx, &format!("clo:{}:{}", args.seed, i), util::compile_text(&dir, &src));
+        one(&mut cx, &format!("clo:{}:{}", args.seed, i), util::compile_text(&dir, &src), &src);
     }
     let _ = std::fs::remove_dir_all(&dir);
     // ---- synthetic ASTs
